@@ -210,6 +210,28 @@ pub fn check_c05_membership(s: &NormalizerSettings, ms: &CharsetMatches) -> Vec<
     out
 }
 
+/// C05 (twin part): the same call with every filter entry replaced by its canonical name
+pub fn check_c05_twin(bytes: &[u8], s: &NormalizerSettings, real_lines: &[String]) -> Vec<Found> {
+    let mut out = vec![];
+    if s.include_encodings.is_empty() && s.exclude_encodings.is_empty() {
+        return out;
+    }
+    let canon = |l: &Vec<String>| -> Option<Vec<String>> { l.iter().map(|x| iana_name(x).map(|y| y.to_string())).collect() };
+    if let (Some(i), Some(e)) = (canon(&s.include_encodings), canon(&s.exclude_encodings)) {
+        if i.iter().chain(e.iter()).any(|x| x == "replacement") {
+            return out;
+        }
+        let mut t = s.clone();
+        t.include_encodings = i;
+        t.exclude_encodings = e;
+        let twin = outcome_lines(&run_real(bytes, &t));
+        if twin != real_lines {
+            out.push(v("C05", format!("result changes when the filter entries {:?}/{:?} are replaced by their canonical names", s.include_encodings, s.exclude_encodings)));
+        }
+    }
+    out
+}
+
 /// C07: BOM flag truthful; UTF-16 only with its BOM
 pub fn check_c07(bytes: &[u8], s: &NormalizerSettings, ms: &CharsetMatches) -> Vec<Found> {
     let mut out = vec![];
